@@ -289,6 +289,7 @@ func (b *Batch) runShard(s int, idx []int, tasks []Task, mu *sync.Mutex, fn func
 	pos := 0
 	for pos < len(idx) {
 		cmd := exec.Command(b.bins[s])
+		cmd.Env = append(os.Environ(), "GOMAXPROCS=2", "GOGC=400")
 		var input bytes.Buffer
 		enc := json.NewEncoder(&input)
 		enc.SetEscapeHTML(false)
@@ -343,3 +344,94 @@ func (b *Batch) runShard(s int, idx []int, tasks []Task, mu *sync.Mutex, fn func
 
 // Cleanup removes the batch directory.
 func (b *Batch) Cleanup() { os.RemoveAll(b.Dir) }
+
+// RunBulk executes bulk tasks (C19): docs(t) supplies the documents and priors of each task.
+func (b *Batch) RunBulk(tasks []Task, docs func(t *Task) ([]string, []string), fn func(t *Task, o *drv.Obs)) error {
+	shardOf := map[string]int{}
+	for i, sh := range b.shards {
+		for _, p := range sh {
+			shardOf[p.Pkg] = i
+		}
+	}
+	per := make([][]int, len(b.shards))
+	for i := range tasks {
+		if s, ok := shardOf[tasks[i].Prog.Pkg]; ok {
+			per[s] = append(per[s], i)
+		}
+	}
+	var mu sync.Mutex
+	var wg sync.WaitGroup
+	var firstErr error
+	for s := range per {
+		if len(per[s]) == 0 {
+			continue
+		}
+		wg.Add(1)
+		go func(s int) {
+			defer wg.Done()
+			pos := 0
+			idx := per[s]
+			for pos < len(idx) {
+				cmd := exec.Command(b.bins[s])
+				cmd.Env = append(os.Environ(), "GOMAXPROCS=2", "GOGC=400")
+				pr, pw, _ := os.Pipe()
+				cmd.Stdin = pr
+				var stderr bytes.Buffer
+				cmd.Stderr = &stderr
+				out, _ := cmd.StdoutPipe()
+				if err := cmd.Start(); err != nil {
+					mu.Lock()
+					firstErr = err
+					mu.Unlock()
+					return
+				}
+				pr.Close()
+				go func(from int) {
+					enc := json.NewEncoder(pw)
+					enc.SetEscapeHTML(false)
+					var last []string
+					for _, i := range idx[from:] {
+						t := &tasks[i]
+						ds, qs := docs(t)
+						if len(last) > 0 && len(ds) == len(last) && &ds[0] == &last[0] {
+							enc.Encode(drv.Task{I: i, Pkg: t.Prog.Pkg, Type: t.Type, Mode: t.Mode, Same: true, Priors: qs})
+							continue
+						}
+						last = ds
+						enc.Encode(drv.Task{I: i, Pkg: t.Prog.Pkg, Type: t.Type, Mode: t.Mode, Docs: ds, Priors: qs})
+					}
+					pw.Close()
+				}(pos)
+				sc := bufio.NewScanner(out)
+				sc.Buffer(make([]byte, 1<<20), 1<<28)
+				done := 0
+				for sc.Scan() {
+					var o drv.Obs
+					if err := json.Unmarshal(sc.Bytes(), &o); err != nil {
+						continue
+					}
+					mu.Lock()
+					fn(&tasks[o.I], &o)
+					mu.Unlock()
+					done++
+				}
+				werr := cmd.Wait()
+				if done == len(idx)-pos {
+					break
+				}
+				bad := idx[pos+done]
+				msg := stderr.String()
+				if len(msg) > 1500 {
+					msg = msg[:1500]
+				}
+				mu.Lock()
+				fn(&tasks[bad], &drv.Obs{I: bad, N: 1, Bads: []drv.Bad{{Doc: 0, Prior: -1, Panic: fmt.Sprintf("FATAL (driver died: %v): %s", werr, msg)}}})
+				mu.Unlock()
+				pos += done + 1
+				pw.Close()
+			}
+		}(s)
+	}
+	wg.Wait()
+	return firstErr
+}
